@@ -830,6 +830,74 @@ def exc_consts(src):
         raise Skip("exception response helpers changed shape (%s)" % ",".join(n for n, m in (("decode", m1), ("dispatch", m2), ("encode", m3), ("size", m4), ("result", m5)) if not m))
     return (num(m1.group(1)), num(m1.group(2)), num(m2.group(1)), num(m3.group(1)), num(m3.group(2)), int(m4.group(1)))
 
+
+# ------------------------------------------------------------------ Client::call and its helpers (shape)
+CALL_STEPS = [
+    ("KFc", r"let (\w+) = req\.function_code\(\);"),
+    ("KAdu", r"let (\w+) = self\.next_request_adu\(req\);"),
+    ("KHdr", r"let (\w+) = (\w+)\.hdr;"),
+    ("KFramed", r"let framed = self\.framed\(\)\?;"),
+    ("KClear", r"framed\.read_buffer_mut\(\)\.clear\(\);"),
+    ("KSend", r"framed\.send\((\w+)\)\.await\?;"),
+    ("KNext", r"let (\w+) = match framed\.next\(\)\.await \{ Some\(Ok\((\w+)\)\) => \2, Some\(Err\(err\)\) => \{ let _ = framed\.next\(\)\.now_or_never\(\); return Err\(err\.into\(\)\); \} None => return Err\(io::Error::from\(io::ErrorKind::(\w+)\)\.into\(\)\), \};"),
+    ("KSplit", r"let ResponseAdu \{ hdr: (\w+), pdu: (\w+), \} = (\w+);"),
+    ("KSplit2", r"let ResponsePdu\((\w+)\) = (\w+);"),
+    ("KVerifyHdr", r"if let Err\(message\) = verify_response_header\(&(\w+), &(\w+)\) \{ return Err\(ProtocolError::HeaderMismatch \{ message, result \}\.into\(\)\); \}"),
+    ("KFcOf", r"let (\w+) = match &result \{ Ok\(response\) => response\.function_code\(\), Err\(ExceptionResponse \{ function, \.\. \}\) => \*function, \};"),
+    ("KVerifyFc", r"if (\w+)\.value\(\) != (\w+)\.value\(\) \{ return Err\(ProtocolError::FunctionCodeMismatch \{ request: \1, result, \} \.into\(\)\); \}"),
+    ("KMapExc", r"Ok\(result\.map_err\( \|ExceptionResponse \{ function: _, exception, \}\| exception, \)\)"),
+]
+
+
+def call_shape(src):
+    """the statement sequence of Client::call (both clients have the same one): tokens in source order, plus what `None` maps to"""
+    impl = block_after(src, r"impl<T>\s+Client<T>")
+    body = None
+    for name, params, b in fn_bodies(impl):
+        if name == "call":
+            body = b
+    if body is None:
+        raise Skip("Client::call not found")
+    stmts = [t for t in split_block(body) if not t.startswith("log::")]
+    toks, none_kind = [], None
+    for st in stmts:
+        for name, rx in CALL_STEPS:
+            mm = re.fullmatch(rx, st)
+            if mm:
+                toks.append(name)
+                if name == "KNext":
+                    none_kind = mm.group(3)
+                break
+        else:
+            raise Skip("Client::call: unrecognised statement: %s" % st[:80])
+    fr = " ".join(block_after(impl, r"fn\s+framed\s*\(").split())
+    mk = re.fullmatch(r"let Some\(framed\) = &mut self\.framed else \{ return Err\(io::Error::new\(io::ErrorKind::(\w+), \"[^\"]*\"\)\); \}; Ok\(framed\)", fr)
+    if not mk:
+        raise Skip("Client::framed changed shape")
+    return toks, none_kind, mk.group(1)
+
+
+def tid_shape(src):
+    impl = block_after(src, r"impl\s+TransactionIdGenerator\s*\{")
+    nxt = " ".join(block_after(impl, r"fn\s+next\s*\(").split())
+    if not re.fullmatch(r"let (\w+) = self\.next_transaction_id; self\.next_transaction_id = \1\.wrapping_add\((\d+)\); \1", nxt):
+        raise Skip("TransactionIdGenerator::next changed shape")
+    step = int(re.fullmatch(r".*wrapping_add\((\d+)\).*", nxt).group(1))
+    new = " ".join(block_after(impl, r"const\s+fn\s+new\s*\(").split())
+    if not re.fullmatch(r"Self \{ next_transaction_id: INITIAL_TRANSACTION_ID, \}", new):
+        raise Skip("TransactionIdGenerator::new changed shape")
+    return (const(src, "INITIAL_TRANSACTION_ID"), step)
+
+
+def service_helpers(src):
+    d = " ".join(block_after(src, r"async\s+fn\s+disconnect\s*<").split())
+    md = re.fullmatch(r"use tokio::io::AsyncWriteExt as _; framed \.into_inner\(\) \.shutdown\(\) \.await \.or_else\(\|err\| match err\.kind\(\) \{ std::io::ErrorKind::(\w+) \| std::io::ErrorKind::(\w+) => \{ Ok\(\(\)\) \} _ => Err\(err\), \}\)", d)
+    v = " ".join(block_after(src, r"fn\s+verify_response_header\s*<").split())
+    mv = re.fullmatch(r"if req_hdr != rsp_hdr \{ return Err\(format!\(.*\)\); \} Ok\(\(\)\)", v)
+    if not (md and mv):
+        raise Skip("service::disconnect / verify_response_header changed shape")
+    return tuple(sorted([md.group(1), md.group(2)]))
+
 # ------------------------------------------------------------------ emit
 def s2l(name):
     return 's2l "%s"' % name
@@ -942,6 +1010,18 @@ def main():
     piece("gen_sync_table", "list sync_row", "map (fun n => (n, (n, true))) sync_methods", lambda: sync_table(syncsrc),
           lambda rows: "[" + "; ".join("(%s, (%s, %s))" % (s2l(a), s2l(b), "true" if ok else "false") for a, b, ok in rows) + "]")
     piece("gen_EXC", "N * N * N * N * N * N", "(128, 128, 128, 128, 128, 2)", lambda: exc_consts(codec), lambda t: "(%d, %d, %d, %d, %d, %d)" % t)
+    srcs = {}
+    for key, rel in (("stcp", "src/service/tcp.rs"), ("srtu", "src/service/rtu.rs"), ("smod", "src/service/mod.rs")):
+        try:
+            srcs[key] = strip_comments(read(rel))
+        except Skip:
+            srcs[key] = ""
+    emit_call = lambda t: "([%s], (%s, %s))" % ("; ".join(t[0]), s2l(t[1]), s2l(t[2]))
+    model_call = '(call_prog_model, (s2l "BrokenPipe", s2l "NotConnected"))'
+    piece("gen_tcp_call", "list ctok * (list N * list N)", model_call, lambda: call_shape(srcs["stcp"]), emit_call)
+    piece("gen_rtu_call", "list ctok * (list N * list N)", model_call, lambda: call_shape(srcs["srtu"]), emit_call)
+    piece("gen_TID", "N * N", "(0, 1)", lambda: tid_shape(srcs["stcp"]), lambda t: "(%d, %d)" % t)
+    piece("gen_disc_tolerated", "list N * list N", '(s2l "BrokenPipe", s2l "NotConnected")', lambda: service_helpers(srcs["smod"]), lambda t: "(%s, %s)" % (s2l(t[0]), s2l(t[1])))
     piece("gen_LEN_MAX", "N * N", "(65535, 255)", lambda: len_helpers(codec), lambda t: "(%d, %d)" % t)
     os.makedirs(os.path.dirname(OUT), exist_ok=True)
     new = "\n".join(out) + "\n"
